@@ -81,23 +81,14 @@ where aPads_zero (front : Bool) : ∀ (fs : List AField), aPad.aPads front 0 fs 
 mutual
 theorem padField_abs (front : Bool) (n k : Nat) : ∀ (f : Field) (s : St) (f' : Field) (s' : St),
     padField front k f s = .ok (f', s') → MemoGood (n + k) s → RectField s.heap n f → WFF f →
-    (k ≠ 0 → f.plain = true) →
+    f.plain = true →
     absField s'.heap f' = aPad front k (absField s.heap f)
   | .leaf nm kd o no u l, s, f', s', h, _, hr, _, hp => by
     simp only [padField] at h
-    split at h
-    · rename_i hk
-      simp only [Except.ok.injEq, Prod.mk.injEq] at h
-      obtain ⟨rfl, rfl⟩ := h
-      have : k = 0 := by simpa using hk
-      subst this
-      rw [aPad_zero]
-    · rename_i hk0
-      have hk0' : k ≠ 0 := by simpa using hk0
-      simp only [RectField] at hr
+    · simp only [RectField] at hr
       obtain ⟨go, hno⟩ := hr
       obtain ⟨ob0, hb1, hb2, _, _⟩ := go.dest
-      have hpl : kd.isPlain = true := by simpa [Field.plain] using hp hk0'
+      have hpl : kd.isPlain = true := by simpa [Field.plain] using hp
       split at h
       · simp at h
       · rename_i ob hob
@@ -119,16 +110,7 @@ theorem padField_abs (front : Bool) (n k : Nat) : ∀ (f : Field) (s : St) (f' :
             | false => simp only [Bool.false_eq_true, if_false]; rw [hlen, insertAt_end]
   | .coll nm no l fs, s, f', s', h, hm, hr, hw, hp => by
     simp only [padField] at h
-    split at h
-    · rename_i hk
-      simp only [Except.ok.injEq, Prod.mk.injEq] at h
-      obtain ⟨rfl, rfl⟩ := h
-      have : k = 0 := by simpa using hk
-      subst this
-      rw [aPad_zero]
-    · rename_i hk0
-      have hk0' : k ≠ 0 := by simpa using hk0
-      split at h
+    · split at h
       · simp at h
       · rename_i fs' s1 hr1
         simp only [Except.ok.injEq, Prod.mk.injEq] at h
@@ -137,10 +119,10 @@ theorem padField_abs (front : Bool) (n k : Nat) : ∀ (f : Field) (s : St) (f' :
         simp only [WFF] at hw
         simp only [absField, aPad]
         congr 1
-        exact padFields_abs front n k fs s fs' s1 hr1 hm hr.1 hw.2 (fun _ => by simpa [Field.plain] using hp hk0')
+        exact padFields_abs front n k fs s fs' s1 hr1 hm hr.1 hw.2 (by simpa [Field.plain] using hp)
 theorem padFields_abs (front : Bool) (n k : Nat) : ∀ (fs : List Field) (s : St) (fs' : List Field) (s' : St),
     padField.padFields front k fs s = .ok (fs', s') → MemoGood (n + k) s → RectField.RectFields s.heap n fs →
-    WFF.WFFs fs → (k ≠ 0 → Field.plain.plainL fs = true) →
+    WFF.WFFs fs → Field.plain.plainL fs = true →
     absField.absFields s'.heap fs' = aPad.aPads front k (absField.absFields s.heap fs)
   | [], s, fs', s', h, _, _, _, _ => by
     simp only [padField.padFields, Except.ok.injEq, Prod.mk.injEq] at h
@@ -158,10 +140,10 @@ theorem padFields_abs (front : Bool) (n k : Nat) : ∀ (fs : List Field) (s : St
         obtain ⟨rfl, rfl⟩ := h
         simp only [RectField.RectFields] at hr
         simp only [WFF.WFFs] at hw
-        have hp1 : k ≠ 0 → f.plain = true := fun hk => by
-          have := hp hk; simp only [Field.plain.plainL, Bool.and_eq_true] at this; exact this.1
-        have hp2 : k ≠ 0 → Field.plain.plainL fs = true := fun hk => by
-          have := hp hk; simp only [Field.plain.plainL, Bool.and_eq_true] at this; exact this.2
+        have hp1 : f.plain = true := by
+          have := hp; simp only [Field.plain.plainL, Bool.and_eq_true] at this; exact this.1
+        have hp2 : Field.plain.plainL fs = true := by
+          have := hp; simp only [Field.plain.plainL, Bool.and_eq_true] at this; exact this.2
         obtain ⟨⟨e1, m1⟩, r1, _⟩ := padField_spec front n k f s f1 s1 h1 hm hr.1 hw.1
         have hr2 := RectFields.ext e1 fs hr.2
         obtain ⟨⟨e2, _⟩, _, _⟩ := padFields_spec front n k fs s1 fs1 s2 h2 m1 hr2 hw.2
@@ -257,7 +239,7 @@ theorem mem_plainL : ∀ (fs : List Field), Field.plain.plainL fs = true → ∀
 
 theorem appendLoop_abs (n m : Nat) (p : String → Bool) : ∀ (acc : List Field) (s : St)
     (acc' : List Field) (s' : St), appendLoop p m acc s = .ok (acc', s') → MemoGood (n + m) s →
-    (∀ f ∈ acc, WFF f ∧ (p f.name = true → RectField s.heap n f ∧ (m ≠ 0 → f.plain = true)) ∧
+    (∀ f ∈ acc, WFF f ∧ (p f.name = true → RectField s.heap n f ∧ f.plain = true) ∧
       (p f.name = false → RectField s.heap (n + m) f)) →
     absField.absFields s'.heap acc' =
       (absField.absFields s.heap acc).map (fun f => if p f.name then aPad false m f else f)
@@ -287,7 +269,7 @@ theorem appendLoop_abs (n m : Nat) (p : String → Bool) : ∀ (acc : List Field
             obtain ⟨rfl, rfl⟩ := hstep
             exact ⟨⟨HeapExt.refl _, hm⟩, hp0 (by simpa using hp), by rw [if_neg hp]⟩
         obtain ⟨⟨e1, m1⟩, r1, a1⟩ := key
-        have hall' : ∀ c ∈ fs, WFF c ∧ (p c.name = true → RectField s1.heap n c ∧ (m ≠ 0 → c.plain = true)) ∧
+        have hall' : ∀ c ∈ fs, WFF c ∧ (p c.name = true → RectField s1.heap n c ∧ c.plain = true) ∧
             (p c.name = false → RectField s1.heap (n + m) c) := fun c hc => by
           obtain ⟨a, c1, c0⟩ := hall c (List.mem_cons_of_mem _ hc)
           exact ⟨a, fun hp => ⟨RectField.ext e1 c (c1 hp).1, (c1 hp).2⟩, fun hp => RectField.ext e1 c (c0 hp)⟩
@@ -352,25 +334,20 @@ theorem extendField_abs (us : Units) (n m : Nat) : ∀ (g f : Field) (s : St) (f
           · intro hp
             by_cases hd : (False ∨ c.name ∈ names gs)
             · have hd' : c.name ∈ names gs := by simpa using hd
-              have hm0 : m = 0 := by
-                simp only [onlyInSelf, Bool.or_eq_true, Bool.and_eq_true, Bool.not_eq_true', beq_iff_eq,
-                  List.contains_eq_mem, decide_eq_true_eq, decide_eq_false_iff_not] at hp
-                rcases hp with hp | hp
-                · exact absurd hd' hp.2
-                · exact hp.1
-              have := c3 hd
-              rw [hm0] at this
-              exact ⟨by simpa using this, fun h0 => absurd hm0 h0⟩
-            · exact ⟨(c4 hd).1, fun _ => pl1 c hc hd⟩
+              exfalso
+              simp only [onlyInSelf, Bool.and_eq_true, Bool.not_eq_true',
+                List.contains_eq_mem, decide_eq_true_eq, decide_eq_false_iff_not] at hp
+              exact hp.2 hd'
+            · exact ⟨(c4 hd).1, pl1 c hc hd⟩
           · intro hp
             by_cases hd : (False ∨ c.name ∈ names gs)
             · exact c3 hd
             · exfalso
               have hd' : c.name ∉ names gs := by simpa using hd
               have hin := (c4 hd).2
-              simp only [onlyInSelf, Bool.or_eq_false_iff, Bool.and_eq_false_iff, Bool.not_eq_false',
+              simp only [onlyInSelf, Bool.and_eq_false_iff, Bool.not_eq_false',
                 List.contains_eq_mem, decide_eq_false_iff_not, decide_eq_true_eq] at hp
-              rcases hp.1 with h0 | h0
+              rcases hp with h0 | h0
               · exact h0 hin
               · exact hd' h0)
         simp only [absField, aExtend, aNames_abs, a1, aFinish, a2]
@@ -406,7 +383,7 @@ theorem loop1_abs (us : Units) (n m : Nat) (selfKeys : List String) :
         · rename_i hc
           have hm' : MemoGood (m + n) s := by rw [Nat.add_comm]; exact hm
           obtain ⟨⟨e, mm⟩, r, sh⟩ := padField_spec true m n g s f1 s1 hstep hm' hg_rect hg_wff
-          have ab := padField_abs true m n g s f1 s1 hstep hm' hg_rect hg_wff (fun _ => hpg.1)
+          have ab := padField_abs true m n g s f1 s1 hstep hm' hg_rect hg_wff hpg.1
           rw [Nat.add_comm] at mm r
           exact ⟨⟨e, mm⟩, r, SameShape.wff g f1 sh hg_wff, sh.name, Or.inl ⟨hc, ab⟩⟩
         · rename_i hc
@@ -495,25 +472,20 @@ theorem dsExtend_abs (us : Units) (h : Heap) (d e : DS) (h' : Heap) (d' : DS)
         · intro hp
           by_cases hx : (False ∨ c.name ∈ names e.fields)
           · have hx' : c.name ∈ names e.fields := by simpa using hx
-            have hm0 : e.numObs = 0 := by
-              simp only [onlyInSelf, Bool.or_eq_true, Bool.and_eq_true, Bool.not_eq_true', beq_iff_eq,
-                List.contains_eq_mem, decide_eq_true_eq, decide_eq_false_iff_not] at hp
-              rcases hp with hp | hp
-              · exact absurd hx' hp.2
-              · exact hp.1
-            have := c3 hx
-            rw [hm0] at this
-            exact ⟨by simpa using this, fun h0 => absurd hm0 h0⟩
-          · exact ⟨(c4 hx).1, fun _ => pl1 c hc hx⟩
+            exfalso
+            simp only [onlyInSelf, Bool.and_eq_true, Bool.not_eq_true',
+              List.contains_eq_mem, decide_eq_true_eq, decide_eq_false_iff_not] at hp
+            exact hp.2 hx'
+          · exact ⟨(c4 hx).1, pl1 c hc hx⟩
         · intro hp
           by_cases hx : (False ∨ c.name ∈ names e.fields)
           · exact c3 hx
           · exfalso
             have hx' : c.name ∉ names e.fields := by simpa using hx
             have hin := (c4 hx).2
-            simp only [onlyInSelf, Bool.or_eq_false_iff, Bool.and_eq_false_iff, Bool.not_eq_false',
+            simp only [onlyInSelf, Bool.and_eq_false_iff, Bool.not_eq_false',
               List.contains_eq_mem, decide_eq_false_iff_not, decide_eq_true_eq] at hp
-            rcases hp.1 with h0 | h0
+            rcases hp with h0 | h0
             · exact h0 hin
             · exact hx' h0)
       simp only [aExtendFields, aNames_abs]
